@@ -155,6 +155,7 @@ def _mk_bary(method):
         T = np.array([V.tolist()]) if h.mode == "sym" else rnp.array([V], dtype=float)
         Q = np.array([P]) if h.mode == "sym" else rnp.array([P], dtype=float)
         b = h.fn(TRI + ".points_to_barycentric")(T, Q, method=method)
+        h.check("one-row-of-three-weights", tuple(b.shape) == (1, 3))
         h.check("sum-to-one", h.eq(b[0, 0] + b[0, 1] + b[0, 2], 1.0))
         h.check("weights-are-the-plane-coordinates", h.all([h.eq(b[0, 1], w1, atol=1e-7), h.eq(b[0, 2], w2, atol=1e-7)]))
 
